@@ -240,7 +240,10 @@ def _apply(tree, op, k, other_tree):
     return touched
 
 
-def _mk(key, rounds, o1):
+QUICK_O2 = ('none', 'stmt_delete', 'stmt_insert_new', 'rename', 'const_change', 'expr_new', 'stmt_swap_next', 'prim_change', 'expr_foreign', 'stmt_duplicate')
+
+
+def _mk(key, rounds, o1, quick=False):
     src = SRCS[key]
     _t = ast.parse(src)
     NS, NE = len(_stmts(_t)) + 2, len(_exprs(_t)) + 4      # ordinals beyond the node counts (plus what one mutation can add) are inapplicable anyway
@@ -250,6 +253,8 @@ def _mk(key, rounds, o1):
     def fn(k1: int, k2: int, o2: int):
         assume(0 <= o2 < len(OPS) and -1 <= k1 <= 40 and -1 <= k2 <= 40)
         op1, op2 = OPS[o1], OPS[pc.pin(o2, 0, len(OPS) - 1)]
+        if quick:
+            assume(op2 in QUICK_O2)      # the quick tier pairs the first mutation with 10 of the 21 kinds as second mutation, the thorough tier with all
         assume(k1 < (NE if op1 in EXPR_OPS else NP if op1 == 'prim_change' else NS) and k2 < (NE if op2 in EXPR_OPS else NP if op2 == 'prim_change' else NS))
         kk1, kk2 = pc.pin(k1, -1, 40), pc.pin(k2, -1, 40)
         if op1 == 'none':
@@ -323,8 +328,12 @@ CELLS = []
 for _k in SRCS:
     for _r in (1, 2):
         for _o1 in range(len(OPS)):
-            CELLS.append(Cell(f'P1.reconcile[{_k},rounds={_r},first={OPS[_o1]}]', _mk(_k, _r, _o1), 'P', FNR,
+            _isq = ((_k, _r) == ('small', 1) and OPS[_o1] in ('none', 'expr_new', 'stmt_delete', 'stmt_swap_next', 'expr_foreign', 'rename', 'const_same_value_other_type', 'stmt_foreign_popped')) or ((_k, _r) == ('ifelse2', 1) and OPS[_o1].startswith('cross_fields')) or ((_k, _r) == ('prims', 1) and OPS[_o1] in ('prim_change', 'none')) or ((_k, _r) == ('cmts', 1) and OPS[_o1] in ('stmt_insert_new', 'stmt_delete', 'stmt_swap_next')) or ((_k, _r) == ('callstar', 1) and OPS[_o1] in ('kwarg_to_doublestar', 'starred_to_plain'))
+            CELLS.append(Cell(f'P1.reconcile[{_k},rounds={_r},first={OPS[_o1]}]', _mk(_k, _r, _o1, _isq), 'P', FNR,
                               f'carrier {_k} ({len(SRCS[_k].splitlines())} lines); script: first mutation {OPS[_o1]} at node ordinal k1, second mutation (any of {len(OPS)} kinds) at k2; '
                               f'ordinals symbolic in -1..40 (finite); {_r} mark/reconcile round(s)',
-                              tier='quick' if ((_k, _r) == ('small', 1) and OPS[_o1] in ('none', 'expr_new', 'stmt_delete', 'stmt_swap_next', 'expr_foreign', 'rename', 'const_same_value_other_type', 'stmt_foreign_popped')) or ((_k, _r) == ('prims', 1) and OPS[_o1] in ('prim_change', 'none')) or ((_k, _r) == ('cmts', 1) and OPS[_o1] in ('stmt_insert_new', 'stmt_delete', 'stmt_swap_next')) or ((_k, _r) == ('callstar', 1) and OPS[_o1] in ('kwarg_to_doublestar', 'starred_to_plain')) or ((_k, _r) == ('ifelse2', 1) and OPS[_o1].startswith('cross_fields')) else 'thorough',
+                              tier='quick' if _isq else 'thorough',
                               budget=900, per_path=90, out='mutation histories > 2 ops per round; programs outside the carriers', reset=pc.reset_globals))
+            if _isq:
+                CELLS.append(Cell(f'P1.reconcile[{_k},rounds={_r},first={OPS[_o1]},all_second_ops]', _mk(_k, _r, _o1), 'P', FNR,
+                                  f'as the quick cell of the same name, with the second mutation ranging over all {len(OPS)} kinds', tier='thorough', budget=900, per_path=90, reset=pc.reset_globals))
